@@ -36,7 +36,7 @@ CLAIMED = {
                 "model's folds that the solver is defined with; the finite space of the property (forms x arity 1..4 x "
                 "{t,f,m}^k x thresholds 0..k+1) is swept completely against the crate and against the extracted model.",
         "note": TB + "Operands are steered through documents; key-list forms only reach operand vectors a single field can produce.",
-        "technique": "Coq proof by induction over operand lists + exhaustive differential sweep (model vs crate vs Python table)",
+        "technique": "Coq proof by induction over operand lists, stated over folds that are proved equal to loop tables translated from the source on every run + exhaustive differential sweep (model vs crate vs Python table), also as optimised by default",
     },
     "C09": {
         "text": "The comparison table is REGENERATED from src/solver.rs on every run (tools/gen_tables.py -> Model/GeneratedCmp.v, 35 arms "
@@ -54,7 +54,7 @@ CLAIMED = {
         "text": "Object::find modelled function-by-function; find_exact proves, for every root object and every well-formed "
                 "path of any depth, that the lookup equals the reference descent (so never a value from another key, a "
                 "shorter path or another index; fix D1), plus nested-block lemmas; complete sweep of paths x small documents "
-                "and arbitrary key strings against the crate.",
+                "and arbitrary key strings against the crate; find_step_multi_index: a segment with more than one index fails the lookup (repair D37).",
         "note": TB + "Well-formed = names without . [ ] and indices up to u64::MAX; other key strings are covered by the correspondence sweep only. Thorough tier also runs the `sync` build (the second copy of find).",
         "technique": "Coq proof (round-trip of path rendering/parsing, induction over segments) + exhaustive differential sweep",
     },
@@ -149,7 +149,7 @@ CLAIMED.update({
                 "overlapping / multi-byte strings are run on the crate against an independent Python reference; the lists also "
                 "written as separate entries / identifiers and optimised by default (the optimiser's batching into automata and regex sets).",
         "note": TB + "aho-corasick itself is modelled by its meaning (all occurrences of all needles, ASCII case folding); regexes are an oracle on both sides.",
-        "technique": "Coq proof (case analysis of the pattern syntax; invariant over the list partition) + exhaustive small-alphabet differential sweep",
+        "technique": "Coq proof (case analysis of the pattern syntax; invariant over the list partition) against a pattern dispatch chain and automaton acceptance tables translated from the source on every run + exhaustive small-alphabet differential sweep",
     },
     "C11": {
         "text": "Model/Repr.v defines when two values have the same logical content (Int n ~ UInt n for 0 <= n <= i64::MAX, "
@@ -224,7 +224,7 @@ CLAIMED.update({
                 "structurally, and every crate-side verdict change must be reproduced by the model AND accepted by the executable "
                 "classifier of a listed finding (D13, D16, D17; Model/Known.v), else it is a VIOLATION. Repaired in the crate on the way: D4, D14, D15/D20, D18/D19, D21, D22, D29, D33.",
         "note": TB + "PARTIAL by nature: the property is false outside the scopes (D13, D16, D17 are listed findings of the crate); inside them it is proved for every loadable rule. The first versions of several statements were refuted by the proof attempts (counterexamples kept as lemmas).",
-        "technique": "Coq proof for coalesce / rewrite / shake_0 / shake_1 (nested-free) and whole loaded rules inside an executable scope + refutation witnesses; executable optimiser model, structural comparison of optimised trees over 16 switch sets with classifier-gated known findings",
+        "technique": "Coq proof of the property itself for every loadable rule outside three executable classes (per-pass exactness, whole loaded rules inside an executable scope, completeness of that scope) + refutation witnesses inside the classes; executable optimiser model, structural comparison of optimised trees over 16 switch sets with classifier-gated known findings",
     },
     "C08": {
         "text": "quantified_list_exact proves that all(k) / of(k, n) over a list of string patterns gives, on a string field, the "
@@ -260,8 +260,8 @@ CLAIMED.update({
         "note": TB + "Not in the theorems' fragment: tagged values, non-string keys and lists that mix mappings with scalars (covered by the "
                 "correspondence against the reference). The YAML-integer range hypothesis (ints_ok: i64 or u64) is what serde_yaml can hold.",
         "technique": "Coq proof of refinement (engine model vs documented reference semantics): counting invariant over the "
-                     "loader's batching, induction over YAML depth and condition trees + differential crate vs extracted "
-                     "reference with classifier-gated known findings",
+                     "loader's batching, induction over YAML depth and condition trees; the value-kind dispatch of the string searches "
+                     "translated from the source on every run + differential crate vs extracted reference with classifier-gated known findings",
     },
 })
 
